@@ -143,6 +143,7 @@ def option_probes(rep, thorough):
         opts = "(format csv, delimiter '%s', quote '%s'%s)" % (d if d != '\t' else '\t', q if q != "'" else "''", ', header true' if h else '')
         rows = ["(%d, '%s', %s)" % (i, c.replace("'", "''"), 'NULL' if i % 4 == 3 else str((-1) ** i * (2 ** (8 * (i % 4)) - 1))) for i, c in enumerate(cells)]
         rows.append("(%d, NULL, 0)" % len(cells))
+        rows.append("(NULL, NULL, NULL)")          # a row of NULLs only: exported as a record of empty fields
         stmts = ['create table t(id int, s varchar, n bigint)', 'create table u(id int, s varchar, n bigint)', 'insert into t values ' + ', '.join(rows),
                  "copy t to '%s' %s" % (f, opts), "copy u from '%s' %s" % (f, opts), 'select id, s, n from t order by id', 'select id, s, n from u order by id']
         out, rc, err = rl('sql', {'engine': 'mem', 'stmts': stmts})
@@ -158,7 +159,7 @@ def option_probes(rep, thorough):
             rep.skip('COPY TO %s' % opts, 'the export statement is not accepted with these options: %s' % ((cp_to or {}).get('err') or 'panic'))
             continue
         imp_ok = cp_from is not None and cp_from.get('ok') and not cp_from.get('panicked')
-        same = imp_ok and b is not None and b.get('ok') and a['rows'] == b['rows']
+        same = imp_ok and b is not None and b.get('ok') and sorted(map(json.dumps, a['rows'])) == sorted(map(json.dumps, b['rows']))
         if same:
             ok += 1
             continue
